@@ -12,7 +12,7 @@ correspond(): (1) the Float instance of the formulas regenerated from distributi
 search():     on the real code only: support, documented moments (6-sigma, statistical — labelled as such), scalar vs
               per-agent path agreement in law, Bernoulli monotonicity in p under a fixed seed, empty requests.
 """
-import struct, math
+import struct, math, json
 import numpy as np
 from fractions import Fraction
 from harness import impl
@@ -542,8 +542,59 @@ def theo_moments(fam, P):
     return None
 
 
+def documented_law(fam, P):
+    """ The documented law as (cdf, discrete?) — from the documentation of each family, through SciPy's frozen distributions
+        (trusted), never through starsim.  None where no closed form is documented here. """
+    import scipy.stats as sps
+    if fam == 'random': return sps.uniform(0, 1).cdf, False
+    if fam == 'uniform': return sps.uniform(P['low'], P['high'] - P['low']).cdf, False
+    if fam == 'normal': return sps.norm(P['loc'], P['scale']).cdf, False
+    if fam == 'lognorm_im': return sps.lognorm(s=P['sigma'], scale=math.exp(P['mean'])).cdf, False
+    if fam == 'lognorm_ex':
+        m, sd = P['mean'], P['std']; s2 = math.log(1 + sd * sd / (m * m))
+        return sps.lognorm(s=math.sqrt(s2), scale=math.exp(math.log(m) - s2 / 2)).cdf, False
+    if fam == 'expon': return sps.expon(scale=P['scale']).cdf, False
+    if fam == 'weibull': return sps.weibull_min(c=P['c'], loc=P['loc'], scale=P['scale']).cdf, False
+    if fam == 'gamma': return sps.gamma(a=P['a'], loc=P['loc'], scale=P['scale']).cdf, False
+    if fam == 'poisson': return sps.poisson(P['lam']).cdf, True
+    if fam == 'nbinom': return sps.nbinom(P['n'], P['p']).cdf, True
+    if fam == 'randint': return sps.randint(P['low'], P['high']).cdf, True
+    if fam == 'bernoulli': return sps.bernoulli(P['p']).cdf, True
+    if fam == 'choice':
+        a = np.arange(P['a']) if np.isscalar(P['a']) else np.asarray(P['a'], dtype=float)
+        w = np.full(len(a), 1 / len(a)) if P.get('p') is None else np.asarray(P['p'], dtype=float)
+        o = np.argsort(a); a = a[o]; cw = np.cumsum(w[o])
+        return (lambda x: np.where(np.searchsorted(a, x, side='right') > 0, cw[np.maximum(np.searchsorted(a, x, side='right') - 1, 0)], 0.0)), True
+    if fam == 'histogram':
+        if P.get('data') is not None:
+            kw = {} if P.get('bins') is None else dict(bins=P['bins'])
+            vals, edges = np.histogram(np.asarray(P['data'], dtype=float), **kw)       # counts per bin: the documented meaning of data=
+        else:
+            vals = np.asarray(P['values'], dtype=float); edges = np.asarray(P['bins'], dtype=float)
+            if len(edges) == len(vals):   # documented completion of a missing right edge: repeat the last width
+                edges = np.append(edges, edges[-1] + (edges[-1] - edges[-2]))
+        vals = np.asarray(vals, dtype=float); w = vals / vals.sum(); edges = np.asarray(edges, dtype=float)
+        cw = np.concatenate([[0.0], np.cumsum(w)])
+        return (lambda x: np.interp(x, edges, cw, left=0.0, right=1.0)), False
+    return None
+
+
+def ks_distance(x, cdf, discrete):
+    """ sup |F_n - F| (for a discrete law evaluated at the atoms, from both sides) """
+    x = np.sort(np.asarray(x, dtype=float)); n = len(x)
+    if discrete:
+        vals, cnt = np.unique(x, return_counts=True)
+        Fn = np.cumsum(cnt) / n
+        F = cdf(vals)
+        return float(np.max(np.abs(Fn - F))), float(vals[np.argmax(np.abs(Fn - F))])
+    F = cdf(x)
+    d = np.maximum(np.abs(np.arange(1, n + 1) / n - F), np.abs(np.arange(0, n) / n - F))
+    return float(d.max()), float(x[np.argmax(d)])
+
+
 def oracle_law(fam, mode, P, N, seed):
-    """ moments of N variates against the documented law (6-sigma; statistical) and hard support checks """
+    """ N variates against the documented law: hard support checks, moments (6-sigma) and the Kolmogorov distance to the
+        documented distribution function (threshold 3.5/sqrt(N): false-alarm probability < 1e-10 per check; statistical) """
     import starsim as ss
     slots = np.arange(N); sim = c03.Sim0(slots)
     pars = dict(P)
@@ -555,12 +606,17 @@ def oracle_law(fam, mode, P, N, seed):
     tm = theo_moments(fam, P)
     if fam == 'randint' and not np.all((x >= P['low']) & (x < P['high'])): return f'values outside [{P["low"]}, {P["high"]}): max {x.max()}, min {x.min()}'
     if fam == 'uniform' and not np.all((x >= P['low']) & (x <= P['high'])): return 'values outside [low, high]'
-    if tm is None: return None
-    m, v = tm
-    se = math.sqrt(v / N) if v > 0 else 0
-    if abs(x.mean() - m) > 6 * se + 1e-9 * max(1, abs(m)): return f'sample mean {x.mean():.5g} vs documented mean {m:.5g} (6 sigma = {6*se:.3g}, N={N})'
-    if v > 0 and fam not in ('lognorm_ex', 'lognorm_im'):   # variance check (fourth moments of lognormals are too heavy for a fixed threshold)
-        if abs(x.var() - v) > 0.12 * v + 1e-9: return f'sample variance {x.var():.5g} vs documented variance {v:.5g}'
+    if tm is not None:
+        m, v = tm
+        se = math.sqrt(v / N) if v > 0 else 0
+        if abs(x.mean() - m) > 6 * se + 1e-9 * max(1, abs(m)): return f'sample mean {x.mean():.5g} vs documented mean {m:.5g} (6 sigma = {6*se:.3g}, N={N})'
+        if v > 0 and fam not in ('lognorm_ex', 'lognorm_im'):   # variance check (fourth moments of lognormals are too heavy for a fixed threshold)
+            if abs(x.var() - v) > 0.12 * v + 1e-9: return f'sample variance {x.var():.5g} vs documented variance {v:.5g}'
+    law = documented_law(fam, P)
+    if law is not None:
+        dist, at = ks_distance(x, law[0], law[1])
+        if dist > 3.5 / math.sqrt(N) + 2e-7:
+            return f'Kolmogorov distance {dist:.4f} to the documented distribution function (largest at {at:.6g}; threshold {3.5/math.sqrt(N):.4f}, N={N})'
     return None
 
 
@@ -585,7 +641,25 @@ def oracle_bernoulli_mono(seed, n, rng):
 def search(ctx):
     import starsim as ss
     N = 40000 if not ctx.thorough else 200000
-    fams = [f for f in ss.dist_list if theo_moments(f, gen_pars(f, ctx.rng, 3)[0]) is not None or f in ('randint',)]
+    fams = [f for f in ss.dist_list if theo_moments(f, gen_pars(f, ctx.rng, 3)[0]) is not None or documented_law(f, gen_pars(f, ctx.rng, 3)[0]) is not None]
+    # a correspondence that broke names a family and parameters: examine exactly those against the documented law first
+    seen = set()
+    for b in list(ctx.broken):
+        c = b.get('data')
+        if not isinstance(c, dict) or 'family' not in c or 'spars' not in c: continue
+        fam = c['family']; P = dict(c['spars'])
+        if c.get('mode') != 'scalar' and c.get('tpars') and c.get('req'):
+            for key, tab in c['tpars'].items(): P[key] = type(c['spars'].get(key, 0.0))(np.asarray(tab)[c['req'][0]]) if key in c['spars'] else float(np.asarray(tab)[c['req'][0]])
+        key = json.dumps([fam, c.get('mode'), P], sort_keys=True, default=str)
+        if key in seen or len(seen) >= 6: continue
+        seen.add(key)
+        for mode in dict.fromkeys([c.get('mode', 'scalar'), 'scalar']):
+            seed = ctx.rng.randint(0, 10**6)
+            try: msg = oracle_law(fam, mode, P, 200000, seed)
+            except Exception as e: msg = f'raised {type(e).__name__}: {e}'
+            ctx.count('law_checks_targeted')
+            if msg:
+                ctx.fail(dict(oracle='family-reference', family=fam, mode=mode), f'ss.{fam} ({mode}) with {P}: {msg}', dict(kind='law', family=fam, mode=mode, pars=P, N=200000, seed=seed))
     todo = []
     for fam in fams:
         modes = ['scalar'] + (['array', 'callable'] if fam in DYN else [])
